@@ -1,11 +1,26 @@
 //! engine `multi` — C02 / C06: multi-threaded compression (`src/enc/threading.rs` CompressMulti
 //! through the three spawners: thread per job, worker pool, inline).
 //!
-//! Sub-modes (`args.rest[0]`): none = the registered run (correspondence + search);
-//! `probe <name>` = the minimal defect reproductions (D13, D16, …) printed to stdout.
+//! `bvh multi [c02|c06] --tier … --seed … --out …` = the registered run: corpus
+//! (/verif/corpus/multi/*.case), arithmetic lines, then 16 child processes (`multi shard k`) with the
+//! correspondence cases, the search cases and the scheduled-pool scenarios. `c02` / `c06` keep only
+//! that property's violation signatures. `bvh multi probe <d13|sticky|d16|d16grid|shortranges|q01|
+//! sized|lgwin>` prints the minimal defect reproductions (release and debug builds).
 //!
-//! Non-trivial case (rule for `rep.nontrivial`): a CompressMulti call with ≥ 2 jobs of which at
-//! least two have a non-empty range.
+//! Correspondence (driver protocol: lean/BV/Drive/Multi.lean): `max`, `maxmulti` against the real
+//! functions; `dict` against the real encoder's positions after the dictionary call; every job is
+//! recomputed through the public single-stream API exactly as `compress_part` does (incl. the
+//! favor-cpu shared index), `range`/`part` lines tie the replica to the model, and `run` lines compare
+//! the model's prediction (class, ownership flag, stitched bytes) from the recomputed job outputs with
+//! what the REAL spawners return for buffers above, at and below the bound.
+//!
+//! Search oracles (real code only): no panic; Ok(n) decodes with both decoders to the input; buffer
+//! >= BrotliEncoderMaxCompressedSizeMulti and quality >= 2 => Ok; input handed back on Ok and Err; byte
+//! identity across spawners / fresh vs reused pool / repeats / favor on vs off / random pool schedules
+//! (scheduler shim); every recomputed job Ok => finished stream.
+//!
+//! Non-trivial case (rule for `rep.nontrivial`): a CompressMulti call with >= 2 threads, an input of
+//! >= 2 bytes and a non-empty first piece.
 use crate::prng::Rng;
 use crate::util::*;
 use alloc_no_stdlib::{Allocator, SliceWrapper, SliceWrapperMut};
@@ -571,11 +586,18 @@ pub fn run_cmd(args: &Args) {
         let mut pool: Pool = brotli::enc::new_work_pool(3);
         let mut rng = Rng::new(seed ^ 0xC0);
         let mut lines = vec![];
-        // D18: empty input, magic header, 2 threads, tiny buffers
-        for t in [2usize, 3] { let c = Case { q: 5, lgwin: 22, large: false, favor: false, catable: false, appendable: false, magic: true, t, n: 0, kind: 0, dseed: 1, size_hint: 0 }; corr_case(&c, &mut lines, &mut rep, &mut pool, &mut rng); search_case(&c, &mut rep, &mut pool, &mut rng); }
-        // D16: q6 lgwin13 4 threads 60 KB text
-        { let c = Case { q: 6, lgwin: 13, large: false, favor: true, catable: false, appendable: false, magic: false, t: 4, n: 60000, kind: 1, dseed: 0x16, size_hint: 0 }; search_case(&c, &mut rep, &mut pool, &mut rng); }
-        { let c = Case { q: 5, lgwin: 10, large: false, favor: true, catable: false, appendable: false, magic: false, t: 6, n: 5852, kind: 4, dseed: 0x17, size_hint: 0 }; search_case(&c, &mut rep, &mut pool, &mut rng); }
+        // /verif/corpus/multi/*.case (format: README.txt there): minimal reproductions of D13, D16, D16b, D18, D19
+        let mut files: Vec<_> = std::fs::read_dir("/verif/corpus/multi").map(|d| d.filter_map(|e| e.ok().map(|e| e.path())).filter(|p| p.extension().map(|x| x == "case").unwrap_or(false)).collect()).unwrap_or_default();
+        files.sort();
+        for f in files {
+            let txt = std::fs::read_to_string(&f).unwrap_or_default();
+            let v: Vec<u64> = txt.split_whitespace().filter_map(|x| x.parse().ok()).collect();
+            if v.len() != 12 { continue; }
+            let c = Case { q: v[0] as i32, lgwin: v[1] as i32, large: v[2] != 0, favor: v[3] != 0, catable: v[4] != 0, appendable: v[5] != 0, magic: v[6] != 0, t: v[7] as usize, n: v[8] as usize, kind: v[9], dseed: v[10], size_hint: v[11] as usize };
+            if c.n <= 4000 { corr_case(&c, &mut lines, &mut rep, &mut pool, &mut rng); }
+            search_case(&c, &mut rep, &mut pool, &mut rng);
+            rep.count("corpus.cases");
+        }
         for (a, b) in lines { corr.case(&a, &b); }
     }
     eprintln!("multi: corpus {:?}", t0.elapsed());
